@@ -282,7 +282,7 @@ func init() {
 	add("", "a.b", "pattern")
 	add("#nl", "\n", "pattern")
 	// property / discriminator field names of the object universe (map keys are tokens)
-	for _, n := range []string{"e", "l", "ls", "m", "x", "s", "sp", "n", "u", "w", "type", "B", "kind"} {
+	for _, n := range []string{"e", "l", "ls", "m", "x", "s", "sp", "n", "u", "w", "r", "type", "B", "kind"} {
 		add("", n, "name")
 	}
 	// integer readings
